@@ -33,16 +33,16 @@ NUMERIC_HESS = ('SDevice', 'TDevice')
 # name -> what is accepted, and what then fails (one branch of the generator each)
 CORNERS = {
   'abccost_deriv_q0_b_lt_1': 'ABCCost with a=0, 0<b<1 (IDevice; ADevice(f=ABCCost)): deriv/hess raise ZeroDivisionError (0.0 ** negative) at the upper bound of a non-degenerate slot',
-  'abccost_hess_q0_b_lt_2': 'ABCCost with a=0, 1<=b<2, incl. the linear b=1 (IDevice; ADevice(f=ABCCost)): hess raises ZeroDivisionError (0.0 ** (b-2)) at the upper bound',
+  'abccost_hess_q0_b_lt_2': 'ABCCost with a=0, 1<b<2 (IDevice; ADevice(f=ABCCost)): hess raises ZeroDivisionError (0.0 ** (b-2)) at the upper bound (the linear b=1 is guarded since b7771c7)',
   'mf_idevice_sum_outside_box': 'MFDeviceSet(IDevice): conduit flows inside the conduit bounds (0, hb) whose sum leaves the wrapped device box [lb, hb] give q < 0 (non-integer b: complex power, TypeError) or q = 0 (a > 1 below lb: ZeroDivisionError)',
-  'gdevice_no_cost_coeffs': 'GDevice without cost_coeffs is accepted; cost/deriv/hess raise TypeError (NoneType not callable)',
-  'gdevice_2d_wrong_row_count': 'GDevice with a 2-D cost_coeffs table of != len rows is accepted; cost/deriv/hess raise ValueError (reshape)',
-  'tworatio_ratios_none': 'TwoRatioMFDeviceSet(ratios=None) is accepted; evaluating its constraints raises TypeError',
-  'cdevice2_vector_slopes_multirange': 'CDevice2 with vector p_l/p_h and several cumulative ranges: deriv/hess raise ValueError (broadcast)',
-  'cdevice2_ranges_not_covering': 'CDevice2 whose several cumulative ranges end before the horizon: cost/deriv/hess raise ValueError (reshape)',
-  'cbound_range_outside_horizon': 'Device cumulative bound with end > len (or a negative start) is accepted; its Jacobian raises ValueError (negative dimensions)',
   'window_zero_sum_flow': 'WindowDevice: an in-bounds flow summing to zero (e.g. the lower bound 0) makes cost/deriv raise ZeroDivisionError (np.average weights)',
 }
+
+# configurations that used to be accepted-but-unusable and are now REJECTED by the constructors (fix commits daf94a5,
+# 77b3fee, 5d29ff4, dde0a11, 67504ae): one probe each on every run asserts the ValueError; if one is accepted again,
+# the property oracle runs on it and reports what then fails.
+REJECTS = ['tworatio_ratios_none', 'cbound_end_beyond_horizon', 'cbound_negative_start', 'gdevice_2d_wrong_row_count',
+           'cdevice2_vector_slopes', 'cdevice2_vector_slopes_multirange', 'cdevice2_ranges_not_covering']
 
 
 def enabled_corners():
@@ -155,6 +155,9 @@ def boundary_params(rng, d):
       elif q < 0.4: c[0] = F(0)
       return L(c)
     p['cost_coeffs'] = row() if rng.random() < 0.5 else [row() for _ in range(n)]
+    py.pop('no_coeffs', None)
+    if rng.random() < 0.2:
+      p['cost_coeffs'] = []; py['no_coeffs'] = True           # no cost_coeffs argument: the zero polynomial (28eaee4)
   elif cls == 'SDevice':
     for k, vals in (('efficiency', ['1', '1', '1/2']), ('sustainment', ['1', '1', '3/4']), ('damage_depth', ['0', '1', '1/2']),
                     ('start', ['0', '1', '1/2']), ('reserve', ['0', '1', '1/4']), ('c3', ['0', '1']), ('capacity', ['1/4', '1', '8'])):
@@ -249,7 +252,7 @@ def abc_corner_slots(d, x):
           continue                                  # not an accepted exponent: never a *known* corner
         if q == 0:
           if b[k] < 1: out['deriv'].append((k, hi))
-          if b[k] < 2: out['hess'].append((k, hi))
+          if b[k] < 2 and b[k] != 1: out['hess'].append((k, hi))      # `b == 1` returns 0 before the power
         elif q < 0 and b[k].denominator != 1:
           out['complex'].append((k, hi))
   return out
@@ -341,7 +344,9 @@ def leaf_features(d):
     if any(isinstance(p[k], list) for k in 'abc'): f.add('vector_params')
   if cls == 'GDevice':
     cc = p.get('cost_coeffs')
-    if cc is not None:
+    if cc is not None and len(cc) == 0:
+      f.add('no_coeffs')
+    elif cc is not None:
       two = isinstance(cc[0], list)
       f.add('coeffs_2d' if two else 'coeffs_1d')
       rows = cc if two else [cc]
@@ -395,6 +400,8 @@ def build_leaf10(d, id=None):
     if '_constraints' in d:
       kw['constraints'] = d['_constraints']
     return dk.ADevice(id or 'adevice', d['n'], b, cb, **kw)
+  if d['cls'] == 'GDevice' and d.get('_py', {}).get('no_coeffs'):
+    return C.repo().GDevice(id or 'gdevice', d['n'], build.py_bounds(d), build.py_cbounds(d))
   return build.build_leaf(d, id)
 
 
@@ -611,12 +618,17 @@ INVALIDATE = {
 }
 
 
+CB_OPTIONS = [('cb_end', None), ('cb_empty', None), ('cb_h<=l', None), ('cb_infeasible', None)]
+
+
 def accept_options(cls):
-  return [('valid', None), ('bounds', None)] + ([('producer', None)] if cls in ('PVDevice', 'GDevice') else []) + INVALIDATE.get(cls, [])
+  return ([('valid', None), ('bounds', None)] + ([('producer', None)] if cls in ('PVDevice', 'GDevice') else []) + INVALIDATE.get(cls, [])
+          + CB_OPTIONS + ([('cb_short', None)] if cls == 'CDevice2' else []))
 
 
 def accept_case(rng, tier, n, cls=None, opt=None):
-  """scalar parameters on and next to every validator threshold; cbounds left out (C11's subject)."""
+  """parameters on and next to every validator threshold (scalar parameters, per-slot bounds, cumulative-bound
+  ranges / limits / feasibility, CDevice2 range tiling): the model's acceptance predicate against the constructor."""
   cls = cls or rng.choice([c for c in LEAF_CLASSES if c != 'ADevice'])
   d = boundary_leaf(rng, tier, cls, n)
   if rng.random() < 0.6:                      # mostly non-degenerate slots, so that a wrongly accepted parameter is exercised
@@ -626,13 +638,7 @@ def accept_case(rng, tier, n, cls=None, opt=None):
         if cls in ('PVDevice', 'GDevice') or hb[k] < 0: lb[k] = hb[k] - 1
         else: hb[k] = lb[k] + 1
     d['lb'], d['hb'] = L(lb), L(hb); d['_py']['bform'] = 'table'
-  if cls != 'CDevice2':
-    d['cbs'] = []; d['_py']['cform'] = None
-  else:
-    lb = [F(x) for x in d['lb']]; hb = [F(x) for x in d['hb']]
-    if sum(lb, F(0)) == sum(hb, F(0)):
-      hb[0] += 1; d['hb'] = L(hb); d['_py']['bform'] = 'table'
-    d['cbs'] = [[fs(sum(lb, F(0))), fs(sum(hb, F(0))), 0, n]]; d['_py']['cform'] = None
+    regen_dependents(rng, d, lb, hb)
   p = d['prm']
   why = 'valid'
   if opt is None:
@@ -658,6 +664,22 @@ def accept_case(rng, tier, n, cls=None, opt=None):
         p['p_l'], p['p_h'] = '-1/4', '-1/2'
     elif k == 'c2>c1':
       p['c1'], p['c2'] = '1/2', '1'
+    elif k.startswith('cb_'):
+      lb = [F(x) for x in d['lb']]; hb = [F(x) for x in d['hb']]
+      lo, hi = sum(lb, F(0)), sum(hb, F(0))
+      d['_py']['cform'] = '4tuples'
+      if k == 'cb_short' and n < 3:
+        k = 'cb_end'; why = k
+      if k == 'cb_end':
+        d['cbs'] = [[fs(lo - 1), fs(hi + 1), 0, n + rng.choice([1, 2])]]
+      elif k == 'cb_empty':
+        e = rng.randint(0, n); d['cbs'] = [[fs(min(lo, F(0)) - 1), fs(max(hi, F(0)) + 1), e, rng.randint(0, e)]]
+      elif k == 'cb_h<=l':
+        d['cbs'] = [[fs(lo), fs(lo), 0, n]]
+      elif k == 'cb_infeasible':
+        d['cbs'] = [[fs(hi + 1), fs(hi + 2), 0, n]] if rng.random() < 0.5 else [[fs(lo - 2), fs(lo - 1), 0, n]]
+      elif k == 'cb_short':
+        d['cbs'] = [[fs(lb[0] - 1), fs(hb[0] + 1), 0, 1], [fs(sum(lb[1:n - 1], F(0)) - 1), fs(sum(hb[1:n - 1], F(0)) + 1), 1, n - 1]]
     elif isinstance(p.get(k), list):
       p[k] = list(p[k]); p[k][slot] = v
     else:
@@ -669,27 +691,51 @@ def accept_case(rng, tier, n, cls=None, opt=None):
 
 def raw_clean_case(rng, tier, n):
   """oracle-only configurations that are expected to be usable."""
-  w = rng.choice(['window', 'cdevice2_vector', 'len0'])
+  w = rng.choice(['window', 'window', 'len0'])
   if w == 'len0':
-    return {'kind': 'raw', 'what': 'len0', 'n': 0, 'cls': rng.choice(['Device', 'IDevice', 'IDevice2', 'CDevice', 'PVDevice', 'SDevice'])}
+    return {'kind': 'raw', 'what': 'len0', 'n': 0, 'cls': rng.choice(['Device', 'IDevice', 'IDevice2', 'CDevice', 'PVDevice', 'SDevice', 'GDevice'])}
   lb, hb = gen.gen_bounds(rng, n, sign='+')
-  if w == 'window':
-    if sum(hb, F(0)) == 0:
-      hb[0] = lb[0] + 1
-    flows = []
-    for mode in ('upper', 'interior', 'mixed', 'lower'):
-      s = gen.gen_flow(rng, lb, hb, mode)
-      if sum(s, F(0)) != 0:                       # a zero-sum flow is the corner `window_zero_sum_flow`
-        flows.append((mode, [L(s)]))
-    return {'kind': 'raw', 'what': 'window', 'cls': 'WindowDevice', 'n': n, 'lb': L(lb), 'hb': L(hb), 'w': fs(dy(rng, 0, n)), 'c': fs(dy(rng, 0, 2)),
-            'flows_at': flows, 'p': gen.gen_price(rng, n)}
-  if sum(lb, F(0)) == sum(hb, F(0)):
-    hb[0] += 1
-  pls = [dy(rng, -3, 0) for _ in range(n)]
-  phs = [x if rng.random() < 0.3 else dy(rng, x, 0) for x in pls]
-  cbs = None if rng.random() < 0.5 else [[fs(sum(lb, F(0))), fs(sum(hb, F(0)) + 1), 0, n]]
-  return {'kind': 'raw', 'what': 'cdevice2_vector', 'cls': 'CDevice2', 'n': n, 'lb': L(lb), 'hb': L(hb), 'p_l': L(pls), 'p_h': L(phs), 'cbs': cbs,
-          'flows_at': [(m, [L(gen.gen_flow(rng, lb, hb, m))]) for m in ('lower', 'upper', 'mixed')], 'p': gen.gen_price(rng, n)}
+  if sum(hb, F(0)) == 0:
+    hb[0] = lb[0] + 1
+  flows = []
+  for mode in ('upper', 'interior', 'mixed', 'lower'):
+    s = gen.gen_flow(rng, lb, hb, mode)
+    if sum(s, F(0)) != 0:                       # a zero-sum flow is the corner `window_zero_sum_flow`
+      flows.append((mode, [L(s)]))
+  return {'kind': 'raw', 'what': 'window', 'cls': 'WindowDevice', 'n': n, 'lb': L(lb), 'hb': L(hb), 'w': fs(dy(rng, 0, n)), 'c': fs(dy(rng, 0, 2)),
+          'flows_at': flows, 'p': gen.gen_price(rng, n)}
+
+
+def reject_cases(rng, tier):
+  """one probe per formerly accepted-but-unusable configuration: the constructor must raise ValueError."""
+  out = []
+  ns = NS[tier]
+  for name in REJECTS:
+    n = rng.choice([x for x in ns if x >= 3])
+    lbp, hbp = [F(0)] * n, [dy(rng, 1, 3)] * n
+    mid = [L([x / 2 for x in hbp])]
+    base = {'kind': 'raw', 'n': n, 'reject': name, 'p': gen.gen_price(rng, n), 'lb': L(lbp), 'hb': L(hbp), 'flows_at': [('interior', mid)]}
+    if name == 'tworatio_ratios_none':
+      out.append(dict(base, what='tworatio_none', cls='TwoRatioMFDeviceSet',
+                      flows_at=[('interior', [L([x / 4 for x in hbp]), L([x / 2 for x in hbp])])]))
+    elif name == 'cbound_end_beyond_horizon':
+      out.append(dict(base, what='device_cbound', cls='Device', cbs=[['-1', fs(sum(hbp, F(0)) + 1), 0, n + rng.choice([1, 2])]]))
+    elif name == 'cbound_negative_start':
+      out.append(dict(base, what='device_cbound', cls='Device', cbs=[['-1', fs(sum(hbp, F(0)) + 1), -1, n]]))
+    elif name == 'gdevice_2d_wrong_row_count':
+      rows = n + rng.choice([1, 2, -1])
+      out.append(dict(base, what='gdevice', cls='GDevice', lb=L([-x for x in hbp]), hb=L(lbp), cost_coeffs=[['1', '1', '0']] * rows,
+                      flows_at=[('interior', [L([-x / 2 for x in hbp])])]))
+    elif name == 'cdevice2_vector_slopes':
+      out.append(dict(base, what='cdevice2_vector', cls='CDevice2', p_l=L([F(-1)] * n), p_h=L([Fraction(-1, 2)] * n), cbs=None))
+    elif name == 'cdevice2_vector_slopes_multirange':
+      cut = rng.randint(1, n - 1)
+      cbs = [['0', fs(hbp[0] * cut + 1), 0, cut], ['0', fs(hbp[0] * (n - cut) + 1), cut, n]]
+      out.append(dict(base, what='cdevice2_vector', cls='CDevice2', p_l=L([F(-1)] * n), p_h=L([Fraction(-1, 2)] * n), cbs=cbs))
+    elif name == 'cdevice2_ranges_not_covering':
+      cbs = [['0', fs(hbp[0] + 1), 0, 1], ['0', fs(hbp[0] * (n - 2) + 1), 1, n - 1]]
+      out.append(dict(base, what='cdevice2_ranges', cls='CDevice2', p_l='-1', p_h='-1/2', cbs=cbs))
+  return out
 
 
 def corner_cases(rng, tier, name):
@@ -701,44 +747,20 @@ def corner_cases(rng, tier, name):
     lbp, hbp = [F(0)] * n, [dy(rng, 1, 3)] * n
     base = {'kind': 'raw', 'n': n, 'corner': name, 'p': gen.gen_price(rng, n)}
     if name in ('abccost_deriv_q0_b_lt_1', 'abccost_hess_q0_b_lt_2'):
-      b = rng.choice(['1/2', '1/4', '3/4']) if name.startswith('abccost_deriv') else rng.choice(['1', '3/2', '1'])
+      b = rng.choice(['1/2', '1/4', '3/4']) if name.startswith('abccost_deriv') else rng.choice(['3/2', '5/4', '7/4'])
       d = {'cls': 'IDevice', 'n': n, 'lb': L(lbp), 'hb': L(hbp), 'cbs': [], 'prm': {'a': '0', 'b': b, 'c': rng.choice(['1', '0'])}, '_py': {'bform': 'table', 'cform': None}}
       if rep == 1 and name == 'abccost_hess_q0_b_lt_2':   # the same kernel reached through ADevice(f=ABCCost(...))
         d = {'cls': 'ADevice', 'n': n, 'lb': L(lbp), 'hb': L(hbp), 'cbs': [], '_py': {'bform': 'table', 'cform': None},
-             'prm': {'f': {'k': 'abc', 'a': '0', 'b': '1', 'c': '1', 'xl': L(lbp), 'xh': L(hbp)}}}
+             'prm': {'f': {'k': 'abc', 'a': '0', 'b': b, 'c': '1', 'xl': L(lbp), 'xh': L(hbp)}}}
       s = gen.gen_flow(rng, lbp, hbp, 'interior'); k = rng.randrange(n); s[k] = hbp[k]
       out.append({'kind': 'leaf', 'dev': d, 's': L(s), 'p': base['p'], '_flow': 'upper', '_shape': rng.choice(['flat', 'row']), 'corner': name})
     elif name == 'mf_idevice_sum_outside_box':
       if rep == 0:   # both conduits at their upper bound: column sum 2*hb, q = -1 (a = 0) with a non-integer exponent
         d = {'cls': 'IDevice', 'n': n, 'lb': L(lbp), 'hb': L(hbp), 'cbs': [], 'prm': {'a': rng.choice(['0', '1/2']), 'b': rng.choice(['5/2', '3/2']), 'c': '1'}, '_py': {'bform': 'table', 'cform': None}}
         out.append(dict(base, what='mf_idevice', cls='MFDeviceSet', dev=d, flows=['e', 'h'], flows_at=[('both-upper', [L(hbp), L(hbp)])]))
-      else:          # wrapped box [1, 2], a = 2: both conduits at their lower bound 0 give s = 2, q = 0, and b = 1 computes 0 ** -1
-        d = {'cls': 'IDevice', 'n': n, 'lb': L([F(1)] * n), 'hb': L([F(2)] * n), 'cbs': [], 'prm': {'a': '2', 'b': '1', 'c': '1'}, '_py': {'bform': 'table', 'cform': None}}
+      else:          # wrapped box [1, 2], a = 2: both conduits at their lower bound 0 give s = 2, q = 0, and b = 3/2 computes 0 ** -1/2
+        d = {'cls': 'IDevice', 'n': n, 'lb': L([F(1)] * n), 'hb': L([F(2)] * n), 'cbs': [], 'prm': {'a': '2', 'b': '3/2', 'c': '1'}, '_py': {'bform': 'table', 'cform': None}}
         out.append(dict(base, what='mf_idevice', cls='MFDeviceSet', dev=d, flows=['e', 'h'], flows_at=[('both-lower', [L([F(0)] * n), L([F(0)] * n)])]))
-    elif name == 'gdevice_no_cost_coeffs':
-      out.append(dict(base, what='gdevice', cls='GDevice', lb=L([-x for x in hbp]), hb=L(lbp), cost_coeffs=None,
-                      flows_at=[('interior', [L([-x / 2 for x in hbp])])]))
-    elif name == 'gdevice_2d_wrong_row_count':
-      rows = n + rng.choice([1, 2]) if rep else max(1, n - 1) + (2 if n == 1 else 0)
-      out.append(dict(base, what='gdevice', cls='GDevice', lb=L([-x for x in hbp]), hb=L(lbp), cost_coeffs=[['1', '1', '0']] * rows,
-                      flows_at=[('interior', [L([-x / 2 for x in hbp])])]))
-    elif name == 'tworatio_ratios_none':
-      out.append(dict(base, what='tworatio_none', cls='TwoRatioMFDeviceSet', lb=L(lbp), hb=L(hbp),
-                      flows_at=[('interior', [L([x / 4 for x in hbp]), L([x / 2 for x in hbp])])]))
-    elif name == 'cdevice2_vector_slopes_multirange':
-      if n < 2: n = 2; lbp, hbp = [F(0)] * n, [hbp[0]] * n; base['n'] = n; base['p'] = gen.gen_price(rng, n)
-      cut = rng.randint(1, n - 1)
-      cbs = [['0', fs(hbp[0] * cut + 1), 0, cut], ['0', fs(hbp[0] * (n - cut) + 1), cut, n]]
-      out.append(dict(base, what='cdevice2_vector', cls='CDevice2', lb=L(lbp), hb=L(hbp), p_l=L([F(-1)] * n), p_h=L([Fraction(-1, 2)] * n), cbs=cbs,
-                      flows_at=[('interior', [L([x / 2 for x in hbp])])]))
-    elif name == 'cdevice2_ranges_not_covering':
-      if n < 3: n = 3; lbp, hbp = [F(0)] * n, [hbp[0]] * n; base['n'] = n; base['p'] = gen.gen_price(rng, n)
-      cbs = [['0', fs(hbp[0] + 1), 0, 1], ['0', fs(hbp[0] * (n - 2) + 1), 1, n - 1]]
-      out.append(dict(base, what='cdevice2_ranges', cls='CDevice2', lb=L(lbp), hb=L(hbp), p_l='-1', p_h='-1/2', cbs=cbs,
-                      flows_at=[('interior', [L([x / 2 for x in hbp])])]))
-    elif name == 'cbound_range_outside_horizon':
-      cbs = [['-1', fs(sum(hbp, F(0)) + 1), 0, n + rng.choice([1, 2])]] if rep == 0 else [['-1', fs(sum(hbp, F(0)) + 1), -1, n]]
-      out.append(dict(base, what='device_cbound', cls='Device', lb=L(lbp), hb=L(hbp), cbs=cbs, flows_at=[('interior', [L([x / 2 for x in hbp])])]))
     elif name == 'window_zero_sum_flow':
       out.append(dict(base, what='window', cls='WindowDevice', lb=L(lbp), hb=L(hbp), w='1', c='1', flows_at=[('lower', [L(lbp)])]))
   return out
@@ -752,7 +774,7 @@ class C10(Prop):
   theorems = ['DK.C10.' + t for t in [
     'hlq_cost_defined', 'hlq_deriv_defined', 'hlq_hess_defined', 'idevice2_defined', 'cdevice2_defined',
     'abc_cost_defined_iff', 'abc_cost_defined', 'abc_deriv_defined_iff', 'abc_deriv_defined', 'abc_hess_defined_iff', 'abc_hess_defined',
-    'abc_deriv_counterexample', 'abc_hess_counterexample',
+    'abc_deriv_counterexample', 'abc_hess_counterexample', 'abc_hess_linear_defined',
     'idevice_cost_defined', 'idevice_deriv_defined_iff', 'idevice_hess_defined_iff', 'idevice_all_defined', 'idevice_model_defined',
     'tdevice_kernel_defined', 'len_norm', 'sdevice_divisors', 'mf_conduits', 'ipowDef_iff', 'powDef_int']]
   bridge = []
@@ -793,6 +815,7 @@ class C10(Prop):
         out.append(accept_case(rng, tier, n))
       else:
         out.append(raw_clean_case(rng, tier, n))
+    out += reject_cases(rng, tier)
     for name in enabled_corners():
       out += corner_cases(rng, tier, name)
     for c in out:
@@ -814,6 +837,8 @@ class C10(Prop):
       bump('tree_rows', gen.tree_rows(c['tree']))
     if c.get('corner'):
       bump('corner', c['corner'])
+    if c.get('reject'):
+      bump('reject_probe', c['reject'])
     if c['kind'] == 'accept':
       bump('accept', c['_why'].split('=')[0])
     if '_shape' in c:
@@ -822,7 +847,7 @@ class C10(Prop):
       bump('feature', f)
 
   def extra_evidence(self):
-    return {'input_distribution': self._hist, 'corner_branches_enabled': enabled_corners(), 'corner_branches': CORNERS}
+    return {'input_distribution': self._hist, 'corner_branches_enabled': enabled_corners(), 'corner_branches': CORNERS, 'reject_probes': REJECTS}
 
   def nontrivial(self, case):
     f = case_features(case)
@@ -845,7 +870,7 @@ class C10(Prop):
       d = case['dev']
       n = d['n']
       p = d['prm']
-      if d['cls'] == 'IDevice' and any(x.denominator != 1 for x in vec(p['b'], n)):
+      if any(x.denominator != 1 for _, bb, _, _, _ in abc_uses(d, [F(0)] * n) for x in bb):
         return []                                     # real exponents: theorem + oracle, not T2
       dev = build_leaf10(d)
       s = build.arr(case['s'])
@@ -930,6 +955,20 @@ class C10(Prop):
       except Exception:
         return []
       return [failure(case['cls'], 'accepted', 'len0', None, None, 'a device of length 0 is accepted (its /len(self) normalisation is undefined)', 'n=0')]
+    if case.get('reject'):
+      try:
+        dev, flows = build_raw(case)
+      except ValueError:
+        return []                                     # rejected, as the repaired constructors do
+      except Exception as e:
+        return [failure(case['cls'], 'raises', 'constructor', type(e).__name__, None, 'constructor raises %s (not ValueError): %s' % (type(e).__name__, str(e)[:150]),
+                        '%s n=%d' % (case['reject'], case['n']))]
+      pr = build.price(case['p'])                     # accepted (again): then it has to be usable
+      for name, x in flows:
+        for kind, what, exc, msg in usable(dev, x, pr):
+          fails.append(failure(case['cls'], kind, what, exc, None, msg, 'accepted configuration `%s` n=%d %s at the %s flow %s' % (
+            case['reject'], case['n'], {kk: v for kk, v in case.items() if kk in ('lb', 'hb', 'cbs', 'p_l', 'p_h', 'cost_coeffs')}, name, x.tolist())))
+      return fails
     try:
       dev, flows = build_raw(case)
     except Exception as e:
